@@ -597,7 +597,9 @@ func c11Run(p *c11Plan) {
 					diff = append(diff, fmt.Sprintf("sink %s reported an error (type %s detail %q) although its invocation for this event did not fail", s, g.typ, g.detail))
 				}
 			}
-			if p.Observer && notified[e.ID] != len(want) {
+			// (the pinned tree notifies once per failing event; once per cascade would serve the
+			// documented purpose as well, so only the bounds are asserted)
+			if p.Observer && (notified[e.ID] > len(want) || (len(want) > 0 && notified[e.ID] == 0)) {
 				diff = append(diff, fmt.Sprintf("the error observer was called %d time(s) with the root monitor of this event, %d of its events failed", notified[e.ID], len(want)))
 			}
 			if len(diff) > 0 {
